@@ -32,6 +32,9 @@ DOCS = [
     "Package: bar\nFiles:\n a\n\tb\n\n\n# free comment\n\nPackage: baz\nX-Y: z\n",
     "A: 1\n\nB: 2\n\n",                                                 # trailing blank line
     "A: 1\n#c1\n#c2\nB: 2\n  \nC: 3",                                   # whitespace-only separator, unterminated
+    "A: 1\nB: 2  ",                                                     # unterminated last line with trailing blanks
+    "A: 1\nB: ",                                                        # unterminated last line: empty value + blank
+    "A: 1\nB:",                                                         # unterminated last line: empty value
 ]
 BOUNDARY = (10, 11, 12, 13, 28, 29, 30, 133, 0x2028, 0x2029)
 
@@ -181,7 +184,7 @@ def h_edit(params, pi: int, op: int, ki: int, v: str, w: str, pi2: int, op2: int
         assume(len(v) > 0)
     if two_line:
         assume(len(w) == params["wlen"])
-        assume(text_ok(w) and len(w) > 0 and w.strip() != "" and w == w.rstrip())
+        assume(text_ok(w) and len(w) > 0 and w.strip() != "")      # may end in blanks: kept verbatim
         value = v + "\n " + w
     else:
         assume(len(w) == 0)
@@ -214,14 +217,14 @@ def partitions(tier, seed):
     q = tier == "quick"
     for d in range(len(DOCS)):
         for vlen in ((1, 2) if q else (1, 2, 3)):
-            if q and vlen == 2 and d not in (1, 3, 7):
+            if q and vlen == 2 and d not in (1, 3, 7, 8):
                 continue
             P.append(dict(name="set/doc%d/v%d" % (d, vlen), harness="h_edit", params=dict(doc=d, vlen=vlen, ops=[0]), budget=90 if q else 1200,
                           reach=["replaced", "added"], bounds="layout %d: set/add on any paragraph and key, single-line value of %d arbitrary chars" % (d, vlen)))
         P.append(dict(name="del/doc%d" % d, harness="h_edit", params=dict(doc=d, vlen=1, ops=[1]), budget=60 if q else 600,
                       reach=["deleted"], bounds="layout %d: delete on any paragraph and key" % d))
-        for vlen, wlen in (((1, 1), (0, 1)) if q else ((1, 1), (0, 1), (0, 2), (2, 1), (1, 2), (2, 2))):
-            if q and d not in (0, 1, 2, 3):
+        for vlen, wlen in (((1, 1), (0, 1), (1, 2)) if q else ((1, 1), (0, 1), (0, 2), (2, 1), (1, 2), (2, 2), (1, 3))):
+            if q and (d not in (0, 1, 2, 3) or (wlen == 2 and d != 0)):
                 continue
             P.append(dict(name="set2l/doc%d/v%d-w%d" % (d, vlen, wlen), harness="h_edit", params=dict(doc=d, vlen=vlen, wlen=wlen, two_line=True, ops=[0]),
                           budget=90 if q else 1200, reach=[], bounds="layout %d: two-line value with %d+%d arbitrary chars" % (d, vlen, wlen)))
